@@ -187,6 +187,27 @@ class Gen:
         if c < 0.8:
             over = dict(t='bind', ks=[dict(k=k, vs=[V(v)], m='k', x=0) for k, v in
                                      r.sample([('amp', 128), ('ctranspose', 64), ('legato', 16), ('stretch', 64), ('pan', 1024)], 2)])
+            if r.random() < 0.35:
+                # Ppar (or a sequence with one) as the LEFT operand: its children get a different input event at every step
+                def child():
+                    n = r.randint(1, 4)
+                    return dict(t='bind', ks=[dict(k='instrument', vs=[VS(r.choice(['vg', 'vn', 'vx']))], m='k', x=0),
+                                              dict(k='midinote', vs=[V(64 * r.randint(40, 90)) for _ in range(n)], m='list', x=0),
+                                              dict(k='dur', vs=[V(r.choice([8, 16, 24, 32, 48]))], m='k', x=0) if r.random() < 0.6 else
+                                              dict(k='dur', vs=[V(r.choice([8, 16, 24, 40])) for _ in range(n)], m='list', x=0)])
+                left = dict(t='par', l=[child() for _ in range(r.randint(2, 3))])
+                c2 = r.random()
+                if c2 < 0.2:
+                    left = dict(t='seq', l=[child(), left] if r.random() < 0.5 else [left, child()])
+                elif c2 < 0.3:
+                    left = dict(t='dur', x=r.choice([40, 64, 90]), p=left, tl=0)
+                elif c2 < 0.4:
+                    left = dict(t='delta', x=r.choice([4, 12]), p=left)
+                m2 = r.randint(4, 12)
+                keys = r.sample([('amp', [64, 128, 256, 512, 1024]), ('legato', [8, 16, 32, 48, 64]), ('pan', [-1024, -512, 0, 512]),
+                                 ('stretch', [16, 32, 32, 64]), ('cutoff', [1024 * 300, 1024 * 900])], r.randint(1, 3))
+                right = dict(t='bind', ks=[dict(k=k, vs=[V(r.choice(vals)) for _ in range(m2)], m='list', x=0) for k, vals in keys])
+                return dict(t='chain', l=[left, right])
             return dict(t='chain', l=[over, b() if r.random() < 0.75 else self.mono()])
         if c < 0.84:
             return self.mono()
@@ -262,7 +283,10 @@ def judge(ctx, traces):
             keyset = {kd['k'] for b in _binds(t['E']) for kd in b['ks']}
             feature = 'mono' if 'mono' in ks else ks[0]
             # more specific input classes first (so that a listed finding does not hide other violations)
-            if any(x['t'] == 'chain' and 'mono' in kinds(x['l'][1]) for x in _nodes(t['E'])) and why.startswith('parameter'):
+            if any(x['t'] == 'chain' and any(y['t'] == 'delta' and y['x'] > 0 for y in _nodes(x['l'][0])) for x in _nodes(t['E'])) \
+                    and why in ('parameter-value', 'time'):
+                feature = 'chain-left-delta'
+            elif any(x['t'] == 'chain' and 'mono' in kinds(x['l'][1]) for x in _nodes(t['E'])) and why.startswith('parameter'):
                 feature = 'chain-over-mono'
             elif 'scale' in keyset and (why.startswith('missing-bundle') or why == 'end-time'):
                 feature = 'explicit-scale'
@@ -398,7 +422,7 @@ MANIFEST = dict(
           '(ii) the bundles a note event sends (/s_new at logical time + latency with instrument, fresh id, add action, group and '
           '(control, value) pairs in description order; gate-off /n_set after sustain iff the instrument has a gate; rests nothing) and '
           '(iii) the event sequences of Pbind, Pmono (plain and articulated: slur iff sustain >= delta), Ppar (FIFO merge by absolute time), Pchain, Pdur/Pconst clipping, Pdelta, Pseq '
-          'and the resulting time-ordered score. TLC enumerates events over key subsets and small programs, checks laws of the '
+          '(Pchain with Pbind or Pseq/Pdelta/Pdur/Ppar-of-Pbinds as left operand: per-step input events) and the resulting time-ordered score. TLC enumerates events over key subsets and small programs, checks laws of the '
           'oracle, and every enumerated and seeded-random case is executed on the real code in NRT mode and validated by TLC '
           'bundle by bundle (times exact, ids by freshness/binding, parameters in order).'),
     note=('Not decided: MidiCps/DbAmp values off the exact lattice beyond a 1e-7 inverse-projection, non-equal-tempered tunings, '
